@@ -322,6 +322,7 @@ impl<'c> Rw<'c> {
             ("ok", 0) => Some(parse_quote!(match #recv { Ok(#v) => Some(#v), Err(_) => None })),
             ("cloned", 0) => Some(parse_quote!(match #recv { Some(#v) => Some(#v.clone()), None => None })),
             ("ok_or", 1) => { let a = &m.args[0]; if matches!(a, Expr::Path(_)) { Some(parse_quote!(match #recv { Some(#v) => Ok(#v), None => Err(#a) })) } else { None } }
+            ("or", 1) => { let a = &m.args[0]; Some(parse_quote!(match #recv { Some(#v) => Some(#v), None => #a })) }
             ("zip", 1) => { let a = &m.args[0]; Some(parse_quote!(match (#recv, #a) { (Some(hx_a), Some(hx_b)) => Some((hx_a, hx_b)), _ => None })) }
             ("map", 1) | ("and_then", 1) | ("filter", 1) | ("is_some_and", 1) | ("map_err", 1) => {
                 let a = &m.args[0];
